@@ -184,6 +184,14 @@ class Emitter:
             return self.v.get("opaque_types", {}).get(ty.text.replace(" ", ""), UNKNOWN)
         if f == "path":
             name = ty.segs[-1]
+            gt = self.v.get("generic_types")
+            if gt and getattr(ty, "args", None):
+                # optional vocabulary key `generic_types: {"Name<Arg,..>": type}`: instances of a generic type that are
+                # modelled by different types (`Set<Attribute>` / `Set<Quirk>`)
+                from .rparser import type_name as _tn
+                gk = "%s<%s>" % (name, ",".join(_tn(a) or "?" for a in ty.args))
+                if gk in gt:
+                    return gt[gk]
             al = self.v.get("type_alias", {})
             if "::".join(ty.segs) in al:
                 # a type alias keyed by the whole path (`colorchoice::ColorChoice` next to clap's `ColorChoice`)
@@ -245,6 +253,11 @@ class Emitter:
             return "(%s + %s)" % (self.coq_ty(t[1]), self.v["result"]["err"])
         if k == "result" and self.res_ind():
             return "(%s %s %s)" % (self.v["result"]["coq"], self.coq_ty(t[1]), self.coq_ty(t[2]))
+        if k == "fnval":
+            # a function value ("fnval", ((mode, type), ..), result type, total): the type of its state-passing translation
+            outs = [self.coq_ty(x) for m, x in t[1] if m == "inout"] + ([self.coq_ty(t[2])] if t[2] != UNIT else [])
+            r = (outs[0] if len(outs) == 1 else "(" + " * ".join(outs) + ")") if outs else "unit"
+            return "(" + " -> ".join([self.coq_ty(x) for _m, x in t[1]] + [r if t[3] else "option " + r]) + ")"
         return "_"
 
     # -- monad helpers -------------------------------------------------------
@@ -812,6 +825,13 @@ class Emitter:
         for n, v in env.vars.items():
             bv = benv.by_decl(n, v.decl)
             out.vars[n] = bv if (bv is not None and getattr(bv, "decl", None) == getattr(v, "decl", None)) else v
+        for xname, xdecl, _g in getattr(self, "borrow_links", {}).values():
+            # vocabulary borrow_fields: a struct that holds a `&mut` parameter stays reachable (by declaration) after
+            # its block, so that the function's result can copy the borrowed value out of it
+            bv = benv.by_decl(xname, xdecl)
+            if bv is not None and bv.decl == xdecl:
+                out.outer = dict(out.outer)
+                out.outer[xdecl] = bv
         return out
 
     @staticmethod
@@ -1098,6 +1118,29 @@ class Emitter:
             # initialiser does not determine it (`let mut r = None;`)
             ann = self.v.get("local_types", {}).get(getattr(self, "cur_fn", None), {}).get(s.pat.name)
 
+        if (ann is not None and is_int(ann) and s.init.kind == "binary" and s.init.op in ("<<", ">>")
+                and s.init.l.kind == "int" and not s.init.l.suffix):
+            # `let x: u16 = 1 << i;`: a shift has the type of its LEFT operand, so the unsuffixed literal is typed by the
+            # annotation (not by the shift amount)
+            s = N("let", pat=s.pat, ty=s.ty, els=s.els, attrs=getattr(s, "attrs", None),
+                  init=N("binary", op=s.init.op, l=N("int", val=s.init.l.val, suffix=ann[1]), r=s.init.r))
+        bf = self.v.get("borrow_fields")
+        if bf and s.pat.kind == "pident" and s.init.kind == "structlit" and s.init.segs[-1] in bf:
+            # optional vocabulary key `borrow_fields: {struct: field}`: `let x = S { field: p, .. }` moves the `&mut`
+            # parameter `p` into the struct.  While `x` lives it owns the value; when the function returns, the value
+            # `p` is left with is the field of `x` (emit_fn: finish)
+            fld = bf[s.init.segs[-1]]
+            srcs = [x for f_, x in s.init.fields if f_ == fld]
+            pv = env.get(srcs[0].segs[0]) if len(srcs) == 1 and srcs[0].kind == "path" and len(srcs[0].segs) == 1 else None
+            if pv is None or pv.mut != "ref":
+                raise EmitError("struct %s: field %s must be initialised with a `&mut` parameter (vocabulary borrow_fields)" % (s.init.segs[-1], fld))
+            getter = self.v["structs"][s.init.segs[-1]]["fields"][fld][0]
+            rest0, pdecl, xname = rest, pv.decl, s.pat.name
+
+            def rest(env2):
+                self.borrow_links[pdecl] = (xname, env2.get(xname).decl, getter)
+                return rest0(env2)
+
         def k1(t, ty, env1):
             ty2 = ann if ann is not None and ann != UNKNOWN else ty
             return self.bind_pattern(s.pat, t, ty2, env1, rest)
@@ -1284,7 +1327,7 @@ class Emitter:
             if self.payload_variant(p) is not None:
                 return all(x.kind in ("pwild", "pident") or (x.kind == "pref" and x.inner.kind in ("pwild", "pident")) for x in p.elems)
             if self.enum_payload(p) is not None:
-                return all(self.pat_is_ctor_like(x, UNKNOWN) for x in p.elems)
+                return all(self.pat_is_ctor_like(x, UNKNOWN) for x in self.payload_elems(p, len(self.enum_payload(p)[1])))
             return p.segs[-1] in ("Some", "Ok", "Err") and all(self.pat_is_ctor_like(x, UNKNOWN) for x in p.elems)
         if k == "ptuple":
             return all(self.pat_is_ctor_like(x, UNKNOWN) for x in p.elems)
@@ -1326,9 +1369,19 @@ class Emitter:
         if not isinstance(en["payload"][p.segs[-1]], list):
             return None
         tys = en["payload"][p.segs[-1]]
-        if len(tys) != len(p.elems):
+        if len(tys) != len(self.payload_elems(p, len(tys))):
             raise EmitError("pattern %s: %d fields, the vocabulary models %d" % ("::".join(p.segs), len(p.elems), len(tys)))
         return en["variants"][p.segs[-1]], tys
+
+    @staticmethod
+    def payload_elems(p, n):
+        """the sub-patterns of a tuple-struct pattern with `..` written out: `Variant(..)`, `Variant(a, ..)` -- the rest
+        pattern stands for the fields that are not named (wildcards); the AST is not changed"""
+        rests = [i for i, x in enumerate(p.elems) if x.kind == "prest"]
+        if len(rests) == 1 and len(p.elems) - 1 <= n:
+            i = rests[0]
+            return p.elems[:i] + [N("pwild") for _ in range(n - len(p.elems) + 1)] + p.elems[i + 1:]
+        return p.elems
 
     def coq_pattern(self, p, ty, binds):
         """native Gallina pattern; binds collects (rust name, coq name, type)"""
@@ -1337,6 +1390,8 @@ class Emitter:
             return "_"
         if k == "pref":
             return self.coq_pattern(p.inner, ty, binds)
+        if k == "pident" and p.name in ("true", "false") and getattr(p, "sub", None) is None:
+            return p.name          # the bool literals (the parser reads them as identifiers)
         if k == "pident":
             pn = getattr(self, "por_names", None)
             if pn is not None:
@@ -1382,7 +1437,7 @@ class Emitter:
         if k == "ptstruct":
             ep = self.enum_payload(p)
             if ep is not None:
-                return "(%s %s)" % (ep[0], " ".join(self.coq_pattern(x, t, binds) for x, t in zip(p.elems, ep[1])))
+                return "(%s %s)" % (ep[0], " ".join(self.coq_pattern(x, t, binds) for x, t in zip(self.payload_elems(p, len(ep[1])), ep[1])))
             name = p.segs[-1]
             inner = ty[1] if ty[0] == "opt" else UNKNOWN
             if ty[0] == "res" and name in ("Ok", "Err"):
@@ -1426,6 +1481,8 @@ class Emitter:
             return None
         if k == "pref":
             return self.pat_test(p.inner, term, ty, binds)
+        if k == "pident" and p.name in ("true", "false") and p.sub is None:
+            return term if p.name == "true" else "(negb %s)" % term      # the bool literals
         if k == "pident":
             binds.append((p.name, term, ty, p.mut))
             return None if p.sub is None else self.pat_test(p.sub, term, ty, binds)
@@ -1498,7 +1555,7 @@ class Emitter:
         if p.kind == "ptstruct":
             ep = self.enum_payload(p)
             if ep is not None:
-                return any(self.pat_names_nonnative(x, t) for x, t in zip(p.elems, ep[1]))
+                return any(self.pat_names_nonnative(x, t) for x, t in zip(self.payload_elems(p, len(ep[1])), ep[1]))
             inner = ty[1] if ty[0] == "opt" else UNKNOWN
             return any(self.pat_names_nonnative(x, inner) for x in p.elems)
         return False
@@ -1542,7 +1599,7 @@ class Emitter:
         if k == "ptstruct" and self.enum_payload(p) is not None and term is None:
             # data-carrying variant of a native vocabulary enum (`Some(Color::Ansi(c))`)
             ctor, ptys = self.enum_payload(p)
-            return "(%s %s)" % (ctor, " ".join(self.hybrid_pat(x, t, binds, tests) for x, t in zip(p.elems, ptys)))
+            return "(%s %s)" % (ctor, " ".join(self.hybrid_pat(x, t, binds, tests) for x, t in zip(self.payload_elems(p, len(ptys)), ptys)))
         if k == "ptstruct":
             name = p.segs[-1]
             if name not in ("Some", "Ok", "Err") or len(p.elems) != 1:
@@ -1903,6 +1960,25 @@ class Emitter:
             return self.expr(e.args[0], env, lambda t, ty, env1: k("(%s %s)" % (rv["err"], t), ("result", UNKNOWN, ty), env1))
         if len(f.segs) == 1 and name in ("Some", "Ok"):
             return self.expr(e.args[0], env, lambda t, ty, env1: k("(Some %s)" % t, ("opt", ty), env1))
+        if len(f.segs) == 1 and env.get(name) is not None and env.get(name).ty[0] == "closure" and len(env.get(name).ty) == 4 and not env.get(name).ty[1]:
+            # a local closure that captures nothing it assigns (`let brighten = |c, b| ..; brighten(x, y)`): the
+            # state-passing function of closure_st applied to the arguments and the empty state
+            cv = env.get(name)
+            if len(e.args) != len(cv.ty[2]):
+                raise EmitError("call of the closure %s with %d arguments" % (name, len(e.args)))
+
+            def k_cl(ts, tys, env1):
+                if self.pure_mode:
+                    raise NeedsBind()
+                r = self.fresh("r")
+                return "'(_, %s) <- %s %s tt ;;\n%s" % (r, cv.coq, " ".join(ts), k(r, cv.ty[3], env1))
+            return self.exprs(e.args, env, k_cl)
+        if len(f.segs) == 1 and env.get(name) is not None and env.get(name).ty[0] == "fnval":
+            # a local variable / parameter that holds a function (`fmt: &dyn Fn(&T, &mut Formatter) -> fmt::Result`),
+            # typed by the vocabulary as ("fnval", ((mode, type), ..), result type, total): applied like a shape
+            fv = env.get(name)
+            return self.call_shape({"coq": fv.coq, "self": None, "params": list(fv.ty[1]), "ret": fv.ty[2], "total": fv.ty[3], "cfg": False},
+                                   None, e.args, env, k)
         key = "::".join(f.segs[-2:]) if len(f.segs) >= 2 else name
         if len(f.segs) >= 2 and f.segs[-2] == "Self" and self.self_struct:
             key = self.self_struct + "::" + name
@@ -2225,14 +2301,17 @@ class Emitter:
             env2 = env2.rebind(n, c)
         stpat = "_" if not st else (st[0] if len(st) == 1 else "'(%s)" % ", ".join(st))
 
-        def fin(envx, term):
+        def fin(envx, term, ty=None):
+            if ty is not None and ty != UNKNOWN:
+                self.closure_ret_ty = ty       # the closure's result type (4th component of a closure value's type)
             return "Some (%s, %s)" % (self.tuple_of([envx.by_decl(n, env.get(n).decl).coq for n in cap]), term)
         old = self.ctl
         oldpm = self.pure_mode
         self.pure_mode = 0
-        self.ctl = Ctl(lambda envx, t, ty: fin(envx, t))
+        self.closure_ret_ty = UNKNOWN
+        self.ctl = Ctl(lambda envx, t, ty: fin(envx, t, ty))
         try:
-            body = self.expr(cl.body, env2, lambda t, ty, envx: fin(envx, t))
+            body = self.expr(cl.body, env2, lambda t, ty, envx: fin(envx, t, ty))
         finally:
             self.ctl = old
             self.pure_mode = oldpm
@@ -2442,7 +2521,7 @@ class Emitter:
     # function of closure_st; its type records the captured (assigned) variables
     def e_closure(self, e, env, k):
         ptys = [self.ty_of_ast(ty) if ty is not None else UNKNOWN for _p, ty in e.params]
-        return self.closure_st(e, ptys, env, lambda fterm, cap, env1: k(fterm, ("closure", tuple(cap), tuple(ptys)), env1))
+        return self.closure_st(e, ptys, env, lambda fterm, cap, env1: k(fterm, ("closure", tuple(cap), tuple(ptys), getattr(self, "closure_ret_ty", UNKNOWN)), env1))
 
     def e_while(self, e, env, k):
         return self.while_like(e.cond, e.body, env, k)
@@ -2814,8 +2893,20 @@ class Emitter:
             self.counter["rec_fuel"] = 1
             self.fn_shapes[self.cur_fn] = dict(shape, coq="%s_rec rec_fuel'" % shape["coq"], total=False)
 
+        self.borrow_links = {}
+
+        def outval(envx, n):
+            d = env.get(n).decl
+            lk = self.borrow_links.get(d)
+            if lk is not None:
+                # vocabulary borrow_fields: a struct that holds this `&mut` parameter is alive: copy its field out
+                bv = envx.by_decl(lk[0], lk[1])
+                if bv is not None and bv.decl == lk[1]:
+                    return "(%s %s)" % (lk[2], bv.coq)
+            return envx.by_decl(n, d).coq
+
         def finish(envx, t, ty):
-            parts = [envx.by_decl(n, env.get(n).decl).coq for n in outs]
+            parts = [outval(envx, n) for n in outs]
             if ret != UNIT:
                 parts.append(t)
             val = self.tuple_of(parts) if parts else "tt"
